@@ -275,80 +275,177 @@ example :
 /-! ## Keyword wiring (`CalendarRule.__init__`) -/
 
 /-- **wiring_identity.** Every keyword of the recipe reaches the same-named argument of the
-    recurrence, normalised from the same-named parameter — for every keyword set: the rule the
-    plugin builds differs from the rule the keywords describe in nothing but the reading of
-    `until` (zone handling, see `zone_consistency_*`).  (Before fix 5a30154 this was refuted by
-    `byweekno`, which was fed from `bysecond`.) -/
-theorem wiring_identity (p : Params) :
-    pluginRule p = { intendedRule p with untilAbs := p.untilArg.map (normUntil p.sSod) } := rfl
-
-/-- … spelled out keyword by keyword -/
+    recurrence, normalised from the same-named parameter (fix 5a30154 removed the `byweekno` ←
+    `bysecond` mix-up). -/
 theorem wiring_identity_keywords (p : Params) :
     (pluginRule p).bymonth = p.bymonth ∧ (pluginRule p).bymonthday = p.bymonthday ∧
     (pluginRule p).byyearday = p.byyearday ∧ (pluginRule p).byweekno = p.byweekno ∧
     (pluginRule p).byweekday = p.byweekday ∧ (pluginRule p).byhour = p.byhour ∧
     (pluginRule p).byminute = p.byminute ∧ (pluginRule p).bysecond = p.bysecond ∧
-    (pluginRule p).freq = p.freq ∧ (pluginRule p).interval = p.interval ∧ (pluginRule p).count = p.count ∧
+    (pluginRule p).freq = p.freq ∧ (pluginRule p).interval = p.interval.toNat ∧ (pluginRule p).count = p.count ∧
     (pluginRule p).sOrd = p.sOrd ∧ (pluginRule p).sSod = p.sSod ∧ (pluginRule p).off = p.off :=
   ⟨rfl, rfl, rfl, rfl, rfl, rfl, rfl, rfl, rfl, rfl, rfl, rfl, rfl, rfl⟩
 
-/-- the input that exposed the repaired defect -/
+/-- the input that exposed the repaired wiring defect -/
 def d13Witness : Params :=
   { freq := .minutely, sOrd := 738946, sSod := 0, off := 0, datePrecision := false, interval := 1,
     count := none, untilArg := none, bymonth := none, bymonthday := none, byyearday := none,
     byweekno := none, byweekday := none, byhour := none, byminute := none, bysecond := some [30] }
 
-/-- non-vacuity / regression witness: `bysecond: 30` no longer restricts the week of the year -/
+/-- regression witness: `bysecond: 30` no longer restricts the week of the year -/
 example : (pluginRule d13Witness).byweekno = none ∧ (pluginRule d13Witness).bysecond = some [30] := by
   decide
 
-/-- **rule_identity** (the full `pluginRule p = intendedRule p`) holds whenever `until` means the
-    same instant under both readings — in particular without `until`; the zone defect D21/D35 is
-    the only remaining obstacle (see `zone_consistency_refuted`). -/
-theorem rule_identity_partial (p : Params)
-    (hu : ∀ u, p.untilArg = some u → normUntil p.sSod u = intendedUntil p.sSod p.off u) :
-    pluginRule p = intendedRule p := by
-  have h2' : ∀ o : Option DateArg,
-      (∀ u, o = some u → normUntil p.sSod u = intendedUntil p.sSod p.off u) →
-        o.map (normUntil p.sSod) = o.map (intendedUntil p.sSod p.off) := by
-    intro o ho
+/-- **zone_consistency** (full strength since fix eef84fd). For every start (time of day, zone)
+    and every form of the argument — date, date string, `datetime` object with or without zone,
+    datetime string with or without offset — `until`, `include` and `exclude` denote the instant
+    the recipe describes: dates at the start's time of day *in the start's zone*, datetimes in
+    their own zone (naive = UTC, as for `start_date`), a datetime-valued `until` with its time. -/
+theorem zone_consistency (sSod : Nat) (off : Int) (a : DateArg) :
+    normUntil sSod off a = intendedUntil sSod off a ∧
+    normDateArg sSod off a = intendedDateArg sSod off a := by
+  cases a <;> exact ⟨rfl, rfl⟩
+
+/-- include / exclude entries are never rejected (a naive timestamp used to raise a TypeError
+    inside `rruleset`), and a date-valued entry carries the start's offset -/
+theorem date_args_total (sSod : Nat) (off : Int) (a : DateArg) :
+    (normDateArg sSod off a).isSome = true ∧
+    (∀ d, normDateArg sSod off (.date d) = some ⟨(d : Int) * 86400 + sSod - off, off⟩) := by
+  refine ⟨by cases a <;> rfl, fun _ => rfl⟩
+
+/-- the inputs that exposed the repaired zone defects (D21 `+05:00` start with a date-valued
+    `until`; D35 a datetime-valued `until` at 05:00 with a 10:00 start; D36 a naive timestamp):
+    the plugin's reading now is the described instant -/
+example :
+    normUntil 36000 18000 (.date 738948) = (738948 : Int) * 86400 + 36000 - 18000 ∧
+    normUntil 36000 0 (.dtObj 738948 18000 none) = (738948 : Int) * 86400 + 18000 ∧
+    normDateArg 36000 18000 (.date 738947) = some ⟨(738947 : Int) * 86400 + 36000 - 18000, 18000⟩ ∧
+    normDateArg 36000 0 (.dtObj 738947 36000 none) = some ⟨(738947 : Int) * 86400 + 36000, 0⟩ := by
+  decide
+
+/-- **rule_identity** (full strength): the rule the plugin hands to the recurrence engine *is*
+    the rule the keywords describe — for every keyword set. (Refuted before fixes 5a30154 and
+    eef84fd by `byweekno` and by the reading of `until`.) -/
+theorem rule_identity (p : Params) : pluginRule p = intendedRule p := by
+  have h2 : ∀ o : Option DateArg,
+      o.map (normUntil p.sSod p.off) = o.map (intendedUntil p.sSod p.off) := by
+    intro o
     cases o with
     | none => simp
-    | some u => simp [ho u rfl]
-  rw [wiring_identity p, h2' p.untilArg hu]
+    | some u => simp [(zone_consistency p.sSod p.off u).1]
+  have e : pluginRule p = { intendedRule p with untilAbs := p.untilArg.map (normUntil p.sSod p.off) } := rfl
+  rw [e, h2]
   rfl
 
-/-- without `until` the two rules coincide outright -/
-theorem rule_identity_no_until (p : Params) (h : p.untilArg = none) : pluginRule p = intendedRule p :=
-  rule_identity_partial p (fun u hu => by rw [h] at hu; cases hu)
+/-- **wiring_identity** — the statement planned in DESIGN §5, at full strength -/
+theorem wiring_identity (p : Params) : pluginRule p = intendedRule p := rule_identity p
 
-/-- **zone_consistency — refuted.** A date-valued `until` is not read in the start's zone: with
-    a `+05:00` start the plugin's `until` instant is five hours late. -/
-theorem zone_consistency_refuted :
-    ∃ (sSod : Nat) (off : Int) (u : DateArg), normUntil sSod u ≠ intendedUntil sSod off u :=
-  ⟨36000, 18000, .date 738948, by simp [normUntil, intendedUntil]⟩
+/-! ## The interval guard (`CalendarRule.__init__`, fix 66ecebf) -/
 
-/-- … and a `datetime`-valued `until` loses its time of day -/
-theorem until_datetime_time_refuted :
-    ∃ (sSod : Nat) (u : DateArg), normUntil sSod u ≠ intendedUntil sSod 0 u :=
-  ⟨36000, .dtObj 738948 18000 (some 0), by simp [normUntil, intendedUntil]⟩
+/-- **interval_guard_error** (error branch). An `interval` below 1 is rejected before any rule is
+    built — for every other keyword (unless the opt-in gate, which is checked first, already
+    rejected the call): the schedule yields an error, never a value and never a hang. -/
+theorem interval_guard_error (p : Params) (H : Int) (hi : p.interval < 1) :
+    (pluginCheck p = .error .badInterval ∨ pluginCheck p = .error .gated) ∧
+    (pluginOcc p H = .error .badInterval ∨ pluginOcc p H = .error .gated) := by
+  have hie : intervalError p = true := by simp [intervalError, hi]
+  unfold pluginOcc pluginCheck
+  by_cases hg : gated p.byweekno = true
+  · simp [hg]
+  · simp [hg, hie]
 
-/-- **zone_consistency_partial.** With a UTC start, date-valued `until` / `include` / `exclude`
-    and datetime strings without an offset mean what they say. -/
-theorem zone_consistency_partial (sSod d : Nat) (s : Nat) :
-    normUntil sSod (.date d) = intendedUntil sSod 0 (.date d) ∧
-    normUntil sSod (.dtStr d s none) = intendedUntil sSod 0 (.dtStr d s none) ∧
-    normUntil sSod (.dtStr d s (some 0)) = intendedUntil sSod 0 (.dtStr d s (some 0)) ∧
-    normDateArg sSod (.date d) = intendedDateArg sSod 0 (.date d) ∧
-    normDateArg sSod (.dtStr d s none) = intendedDateArg sSod 0 (.dtStr d s none) ∧
-    (∀ o, normDateArg sSod (.dtObj d s (some o)) = intendedDateArg sSod 0 (.dtObj d s (some o))) := by
-  refine ⟨?_, ?_, ?_, ?_, ?_, ?_⟩ <;> simp [normUntil, intendedUntil, normDateArg, intendedDateArg]
+/-- **interval_guard_positive.** Whenever the checks pass, the rule handed to the recurrence
+    engine has `interval ≥ 1` and keeps the recipe's value: `0 < interval` is a *checked*
+    precondition of everything below, not an assumption. -/
+theorem interval_guard_positive (p : Params) (r : Rule) (h : pluginCheck p = .ok r) :
+    r = pluginRule p ∧ 0 < r.interval ∧ (r.interval : Int) = p.interval := by
+  unfold pluginCheck at h
+  split at h
+  · cases h
+  · split at h
+    · cases h
+    · rename_i hie
+      split at h
+      · cases h
+      · cases h
+        have : ¬ p.interval < 1 := by simpa [intervalError] using hie
+        refine ⟨rfl, ?_, ?_⟩ <;> simp only [pluginRule] <;> omega
 
-/-- included / excluded dates are forced to UTC whatever the start's zone is (refutes zone
-    consistency for `include` / `exclude`) -/
-theorem include_zone_refuted :
-    ∃ (sSod : Nat) (off : Int) (a : DateArg), normDateArg sSod a ≠ intendedDateArg sSod off a :=
-  ⟨36000, 18000, .date 738947, by simp [normDateArg, intendedDateArg]⟩
+/-- the engine's own `badInterval` outcome (dateutil's endless loop) is unreachable from a recipe -/
+theorem interval_never_reaches_engine (p : Params) (H : Int) :
+    pluginOcc p H ≠ .error (.rule .badInterval) := by
+  intro h
+  unfold pluginOcc at h
+  cases hc : pluginCheck p with
+  | error e =>
+    rw [hc] at h
+    simp only [Except.error.injEq] at h
+    subst h
+    unfold pluginCheck at hc
+    split at hc
+    · cases hc
+    · split at hc
+      · cases hc
+      · split at hc <;> cases hc
+  | ok r =>
+    rw [hc] at h
+    dsimp only at h
+    have hpos := (interval_guard_positive p r hc).2.1
+    cases ho : occ r H with
+    | ok l => rw [ho] at h; cases h
+    | error e =>
+      rw [ho] at h
+      simp only [Except.error.injEq, PErr.rule.injEq] at h
+      subst h
+      unfold occ at ho
+      have hp : precheck r ≠ .error .badInterval := by
+        unfold precheck
+        have : (r.interval == 0) = false := by simp; omega
+        rw [this]
+        simp only [Bool.false_eq_true, if_false]
+        split
+        · intro hh; cases hh
+        · split
+          · intro hh; cases hh
+          · split
+            · intro hh; cases hh
+            · split
+              · intro hh; cases hh
+              · intro hh; cases hh
+      cases hpc : precheck r with
+      | error e' =>
+        rw [hpc] at ho
+        simp only [Except.error.injEq] at ho
+        subst ho
+        exact hp hpc
+      | ok u =>
+        rw [hpc] at ho
+        simp only [] at ho
+        split at ho <;> cases ho
+
+/-- **plugin_occ_sorted**: the values of a `Schedule.Event`'s own rule are strictly increasing —
+    with no hypothesis on `interval` (the guard supplies it) -/
+theorem plugin_occ_sorted (p : Params) (H : Int) (l : List Nat) (h : pluginOcc p H = .ok l) :
+    l.Pairwise (· < ·) := by
+  unfold pluginOcc at h
+  cases hc : pluginCheck p with
+  | error e => rw [hc] at h; cases h
+  | ok r =>
+    rw [hc] at h
+    dsimp only at h
+    cases ho : occ r H with
+    | error e => rw [ho] at h; cases h
+    | ok l' =>
+      rw [ho] at h
+      have e : l' = l := by injection h
+      exact e ▸ occ_sorted r H l' ho
+
+/-- non-vacuity: `interval: 0` and `interval: -2` are errors, `interval: 3` passes with 3 -/
+example :
+    (match pluginCheck { d13Witness with interval := 0 } with | .error .badInterval => true | _ => false) = true ∧
+    (match pluginCheck { d13Witness with interval := -2 } with | .error .badInterval => true | _ => false) = true ∧
+    (pluginCheck { d13Witness with interval := 3 }).toOption.map (·.interval) = some 3 := by
+  decide
 
 /-! ## One schedule per call: the `@memorable` state cache -/
 
